@@ -10490,6 +10490,7 @@ func (p *parser) visitAndAppendStmt(stmts []js_ast.Stmt, stmt js_ast.Stmt) []js_
 	case *js_ast.SExportFrom:
 		// "export {foo} from 'path'"
 		name := p.loadNameFromRef(s.NamespaceRef)
+		p.checkForUnrepresentableIdentifier(stmt.Loc, name)
 		s.NamespaceRef = p.newSymbol(ast.SymbolOther, name)
 		p.currentScope.Generated = append(p.currentScope.Generated, s.NamespaceRef)
 		p.recordDeclaredSymbol(s.NamespaceRef)
@@ -10498,6 +10499,9 @@ func (p *parser) visitAndAppendStmt(stmts []js_ast.Stmt, stmt js_ast.Stmt) []js_
 		// names in another file. This means the symbols are really aliases.
 		for i, item := range s.Items {
 			name := p.loadNameFromRef(item.Name.Ref)
+
+			// Note: The name may have been written as a string literal
+			p.checkForUnrepresentableIdentifier(item.Name.Loc, name)
 			ref := p.newSymbol(ast.SymbolOther, name)
 			p.currentScope.Generated = append(p.currentScope.Generated, ref)
 			p.recordDeclaredSymbol(ref)
@@ -10508,6 +10512,13 @@ func (p *parser) visitAndAppendStmt(stmts []js_ast.Stmt, stmt js_ast.Stmt) []js_
 		// "export * from 'path'"
 		// "export * as ns from 'path'"
 		name := p.loadNameFromRef(s.NamespaceRef)
+
+		// Note: The alias may have been written as a string literal
+		nameLoc := stmt.Loc
+		if s.Alias != nil {
+			nameLoc = s.Alias.Loc
+		}
+		p.checkForUnrepresentableIdentifier(nameLoc, name)
 		s.NamespaceRef = p.newSymbol(ast.SymbolOther, name)
 		p.currentScope.Generated = append(p.currentScope.Generated, s.NamespaceRef)
 		p.recordDeclaredSymbol(s.NamespaceRef)
